@@ -192,6 +192,20 @@ def run_shard(spec, acc):
                 cross.append((d, p0, nb, h0))
             acc.cover("definitions", d.id)
             acc.cover("key_field_counts", len(keys))
+    # after the 10-minute discovery window a mapping decoder returns traffic of sources that never claimed: those
+    # messages carry a hash too, and the same one as from a claimed source
+    from ..lib import decoder_clock_advanced
+    late = NMEA2000Decoder(build_network_map=True)
+    with decoder_clock_advanced(11 * 60):
+        for d in defs[: (40 if quick else 400)]:
+            nb = d.length if d.length is not None else (d.total_bits() + 7) // 8
+            p0 = dbx.pack(d, gen.base_raws(d, rng, dbx))
+            if dbx.select(d.pgn, p0) is not d:
+                continue
+            h_late = observe(late, d, p0, nb, src=99, tag="unclaimed source after the discovery window")
+            h_ref = observe(decA, d, p0, nb, src=1, tag="claimed source")
+            if h_late is not None:
+                acc.count("post_window_unclaimed_hashes")
     # definitions whose key is a variable-length string (station ids): same text -> same hash, other text -> other hash
     from .c01 import variable_cases
     for d in [x for x in dbx.defs if x.supported and not x.fixed_layout and any(f.pk for f in x.fields) and x.index % spec["n"] == spec["i"]]:
